@@ -878,7 +878,8 @@ func (m *Model) Compare(st *sim.State) {
 			return
 		}
 		for _, f := range append([]Finding{}, m.Findings[nBefore:]...) {
-			if f.Prop == "C11" || (f.Prop == "C12" && strings.HasPrefix(f.Kind, "unbonding-stake")) {
+			// ... and the offender's weight in open proposals: voter record and per-option tally after the punishment
+			if f.Prop == "C11" || (f.Prop == "C12" && strings.HasPrefix(f.Kind, "unbonding-stake")) || (f.Prop == "C15" && (f.Kind == "tally-mismatch" || f.Kind == "voter-mismatch")) {
 				f.Prop = "C14"
 				m.Findings = append(m.Findings, f)
 			}
